@@ -496,6 +496,10 @@ theorem subclass_copy_has_own_slots (w : World) (k k' : ClsId) (x : Name) (lit :
   split at hok
   · simp at hok
   · rename_i cells2 _
+    split at hok
+    · simp at hok
+    rename_i hro
+    rw [if_neg hro]
     have h1 := setOwn_get (w := { w with cells := c2 }) (x := x)
       (p := { P with owner := Owner.cls k, mslots := ms }) hK0
     have h2 := setOwn_get (w := { ({ w with cells := c2 }).setOwn k x { P with owner := Owner.cls k, mslots := ms } with cells := cells2 })
@@ -506,6 +510,32 @@ theorem subclass_copy_has_own_slots (w : World) (k k' : ClsId) (x : Name) (lit :
     obtain ⟨sc, hsc, rfl⟩ := hc
     have := hfresh sc.1 sc.2 hsc
     simp at this; omega
+
+/-- **C12 (read-only Parameters, class level).**  `K.x = v` on a read-only Parameter raises and leaves every class
+`__dict__` and every instance record as it was — also when `K` only inherits `x`: the copy made for the assignment is
+removed again whatever the exception type (here TypeError, raised after validation), so `K` goes on following its
+parent. -/
+theorem readonly_class_assignment_rejected (w : World) (k k' : ClsId) (x : Name) (lit : Lit) (P : PObj)
+    (hr : w.resolve k x = some (k', P)) (hro : P.readonly = true) :
+    (doSetClsCore w k x lit).2 ≠ none ∧ (doSetClsCore w k x lit).1.classes = w.classes ∧
+    (doSetClsCore w k x lit).1.insts = w.insts := by
+  unfold doSetClsCore
+  simp only [hr]
+  generalize evalLit w.cells lit = r
+  obtain ⟨v, cells1⟩ := r
+  simp only
+  by_cases hk : k' = k
+  · simp only [hk, if_true]
+    split
+    · exact ⟨by simp, rfl, rfl⟩
+    · simp [hro]
+  · simp only [hk, if_false]
+    generalize copySlots cells1 P.mslots = r2
+    obtain ⟨ms, c⟩ := r2
+    simp only
+    split
+    · exact ⟨by simp, rfl, rfl⟩
+    · simp [hro]
 
 /-! ## The statement as a whole -/
 
@@ -594,6 +624,19 @@ example : c12TupWorld.getCls 0 0 = some (.tup [0, 1]) ∧ c12TupWorld.getInst 0 
 example : deref (run c12TupWorld [.mutItem (.inst 0) 0 0 9]).cells 2 = [0, 0, 9] ∧
     deref (run c12TupWorld [.mutItem (.inst 0) 0 0 9]).cells 0 = [0, 0] ∧
     deref (run c12TupWorld [.mutItem (.inst 0) 0 0 9]).cells 4 = [0, 0] := by decide
+-- the object a constant parameter holds is what the attribute READS: instance 0 has a Parameter copy of its own (default
+-- snapshot 5) made constant; after `A.p0 = 7` it reads 7, so `obj.p0 = 7` is accepted (a no-op) and `obj.p0 = 5` is refused
+def c12ConstW : World := run c12World [.access 0 0, .slotSet (.inst 0) 0 (.constant true), .setVal (.cls 0) 0 (.int 7)]
+example : c12ConstW.getInst 0 0 = some (.int 7) ∧ (step c12ConstW (.setVal (.inst 0) 0 (.int 7))).2 = none ∧
+    (step c12ConstW (.setVal (.inst 0) 0 (.int 5))).2 = some .typeError := by decide
+-- a read-only Parameter: `B.p = v` on the inheriting subclass is rejected and B goes on inheriting
+def c12RoDecl : Decl :=
+  { name := 0, kind := .number, default := .int 5, instantiate := false, constant := false, perInstance := true,
+    checkOnSet := false, boundsTup := none, boundsList := some (0, 10), objects := none, readonly := true }
+def c12RoWorld : World := run World.empty [.mkClass [] [c12RoDecl], .mkClass [0] []]
+example : (c12RoWorld.resolve 1 0).map (·.2.readonly) = some true ∧
+    (step c12RoWorld (.setVal (.cls 1) 0 (.int 7))).2 = some .typeError ∧
+    (step c12RoWorld (.setVal (.cls 1) 0 (.int 7))).1.classes = c12RoWorld.classes := by decide
 -- the subclass follows the class default until it is assigned there (copy-on-write)
 example : (run c12World [.setVal (.cls 0) 0 (.int 7)]).getInst 1 0 = some (.int 7) := by decide
 example : (run c12World [.setVal (.cls 1) 0 (.int 9), .setVal (.cls 0) 0 (.int 7)]).getInst 1 0 = some (.int 9) := by decide
